@@ -194,7 +194,7 @@ func runOnce(c ccase, tail []byte, attempt int) (res batch.Result, again bool) {
 
 	// (b) collateral: the canary
 	if clause, detail := can.Check(); clause != "" {
-		res.Add(clause, feat("gen", c.Gen, "cut", c.Cut, "overlong_prefix_in_ipv4_loc_rib", can.OverlongInLocRIB()), "%s: %s", where, detail)
+		res.Add(clause, feat("overlong_prefix_in_ipv4_loc_rib", can.OverlongInLocRIB()), "%s: %s", where, detail)
 		return
 	}
 	res.Count("canary_checks_passed", 1)
